@@ -46,14 +46,8 @@ def sqrt (be : SqrtBE) (v : Int) : M Int :=
   | .abacus => sqrtAbacus v
   | .std => sqrtStd v
 
-/-- `hypot` -/
-def hypot (be : SqrtBE) (lh rh : Int) : M Int := do
-  let lh ← if lh < 0 then neg lh else pure lh
-  let rh ← if rh < 0 then neg rh else pure rh
-  let uhi0 := toU64 lh
-  let ulo0 := toU64 rh
-  let uhi := if uhi0 < ulo0 then ulo0 else uhi0
-  let ulo := if uhi0 < ulo0 then uhi0 else ulo0
+/-- `hypot` after the sign removal and the reordering: `uhi ≥ ulo` are the `uint64_t` magnitudes -/
+def hypotU (be : SqrtBE) (uhi ulo : Int) : M Int :=
   if uhi = 0 then pure 0
   else if uhi ≥ 1073741824 then do
     let rshbits := 48 - clz64 uhi
@@ -71,5 +65,15 @@ def hypot (be : SqrtBE) (lh rh : Int) : M Int := do
     shr64 q lshbits
   else
     sqrt be (toI64 (((uhi * uhi + ulo * ulo) % two64) / 65536))
+
+/-- `hypot` -/
+def hypot (be : SqrtBE) (lh rh : Int) : M Int := do
+  let lh ← if lh < 0 then neg lh else pure lh
+  let rh ← if rh < 0 then neg rh else pure rh
+  let uhi0 := toU64 lh
+  let ulo0 := toU64 rh
+  let uhi := if uhi0 < ulo0 then ulo0 else uhi0
+  let ulo := if uhi0 < ulo0 then uhi0 else ulo0
+  hypotU be uhi ulo
 
 end FixedMath
